@@ -24,6 +24,7 @@ type Claim struct {
 	Explanation string   `json:"explanation"`
 	Bounded     []BoundedCheck `json:"bounded"`
 	MinObligations int   `json:"min_obligations"`
+	View        string   `json:"view"` // verify function bodies against their 'viewfunc <view>' contracts where present
 }
 
 type BoundedCheck struct {
@@ -226,6 +227,11 @@ func cmdCheck(args []string) int {
 			continue
 		}
 		spec := w.funcSpecs[key]
+		if claim.View != "" {
+			if vs := w.funcSpecs["view:"+claim.View+":"+key]; vs != nil {
+				spec = vs
+			}
+		}
 		if spec == nil {
 			fr.Error = "no contract"
 			continue
